@@ -53,6 +53,9 @@ type sysPend struct { // a set handed to the bridge of a worker
 	ids     []int
 	handed  bool // the handover choice has been emitted
 	skipped bool // handed over before this partition knew the worker
+	lazy    bool // nothing of the partition inside, fails with a connection error: emitted as connEmpty at the answer
+	hidden  bool // holds nothing of the partition and the answer is not a connection error: no effect on the partition
+	respIdx int  // index of the bp.resp.end event of the answer (-1: none)
 	done    bool // the broker choice has been emitted
 }
 
@@ -66,20 +69,24 @@ func kindOfFlags(fl int) string {
 	return "d"
 }
 
-// sysPlan is the static part of the translation: which model worker every leader lookup selects and which
-// hook-event worker tag is which model worker.  A model worker IS a real brokerProducer (its tag): a worker that
-// is shared with other partitions stays alive when this partition releases it and is found again by the next
-// lookup, so a partition can select the same worker repeatedly.
+// sysPlan is the static part of the translation.  A MODEL worker is one stay of the partition at a real
+// brokerProducer (from the leader lookup that selects it to the chaser that releases it): a real worker that the
+// partition selects again - a worker shared with other partitions stays alive when this partition releases it -
+// is represented by a fresh model worker for every stay (the broker cannot tell which worker object a set came from;
+// the worker handles the stays one after the other because its input channel is FIFO).  The model run is therefore
+// a handover chain; that it is a run of the model with the same log and outcomes is what the replay checks.
 type sysPlan struct {
-	lksAt    map[int][]string // index of a pp.recv event -> results of the leader lookups of that step
-	tagW     map[int]int      // worker tag (broker*4096+serial) -> model worker
-	activeAt map[int]int      // worker tag -> index of the pp.recv event of this partition's first lookup that found it
-	workers  int              // number of successful lookups
+	lksAt   map[int][]string // index of a pp.recv event -> results of the leader lookups of that step
+	route   map[int]int      // index of a bp.recv event of this partition -> model worker that takes the token (-1: none)
+	tagOf   map[int]int      // model worker -> tag of the real worker
+	tags    map[int]bool     // tags of the real workers the partition uses
+	workers int              // number of successful lookups
+	selAt   map[int]int      // model worker -> index of the wg.add.syn event of the real lookup that selected it
 }
 
 func sysMakePlan(res *Result, P int) (*sysPlan, string) {
 	ev := res.Events
-	pl := &sysPlan{lksAt: map[int][]string{}, tagW: map[int]int{}, activeAt: map[int]int{}}
+	pl := &sysPlan{lksAt: map[int][]string{}, route: map[int]int{}, tagOf: map[int]int{}, tags: map[int]bool{}, selAt: map[int]int{}}
 	// which worker received a forwarded data token
 	recvTag := map[sysKey]int{}
 	for _, e := range ev {
@@ -88,9 +95,16 @@ func sysMakePlan(res *Result, P int) (*sysPlan, string) {
 		}
 	}
 	cnt := map[int]int{}
-	cur, curRecv := -1, -1
+	dataTo := map[sysKey]int{} // forwarded (id, retries) -> model worker
+	finQ := map[int][]int{}    // tag -> model workers whose chaser is on its way to the real worker, oldest first
+	synQ := map[int][]int{}    // tag -> model workers in the order of their lookups
+	cur, curRecv, lastSyn := -1, -1, -1
 	for i, e := range ev {
 		switch e.Kind {
+		case "wg.add.syn":
+			if e.A == P {
+				lastSyn = i
+			}
 		case "pp.recv":
 			if e.P == P {
 				curRecv = i
@@ -102,6 +116,9 @@ func sysMakePlan(res *Result, P int) (*sysPlan, string) {
 			}
 		case "wg.add.fin":
 			if e.A == P {
+				if cur >= 0 {
+					finQ[pl.tagOf[cur]] = append(finQ[pl.tagOf[cur]], cur)
+				}
 				cur = -1
 			}
 		case "pp.fwd":
@@ -113,30 +130,47 @@ func sysMakePlan(res *Result, P int) (*sysPlan, string) {
 				return nil, "forward-not-received"
 			}
 			if cur < 0 {
-				cur = T
-				w, known := pl.tagW[T]
-				if !known {
-					b := T / 4096
-					if cnt[b] >= 64 {
-						return nil, "too-many-workers"
-					}
-					w = b*64 + cnt[b]
-					cnt[b]++
-					// the partition's view of the worker starts with the run: it may hold the worker (prefetched at
-					// its start) long before its first message, and what happens to the worker meanwhile - a
-					// connection error caused by another partition's request closes it - is part of that view
-					pl.tagW[T], pl.activeAt[T] = w, -1
+				b := T / 4096
+				if cnt[b] >= 64 {
+					return nil, "too-many-workers"
 				}
+				cur = b*64 + cnt[b]
+				cnt[b]++
+				pl.tagOf[cur], pl.tags[T], pl.selAt[cur] = T, true, lastSyn
+				synQ[T] = append(synQ[T], cur)
 				pl.workers++
-				pl.lksAt[curRecv] = append(pl.lksAt[curRecv], strconv.Itoa(w))
-			} else if cur != T {
+				pl.lksAt[curRecv] = append(pl.lksAt[curRecv], strconv.Itoa(cur))
+			} else if pl.tagOf[cur] != T {
 				return nil, "worker-binding-ambiguous"
 			}
+			dataTo[sysKey{e.ID, e.A}] = cur
 		case "pp.fail":
 			if e.P == P {
 				pl.lksAt[curRecv] = append(pl.lksAt[curRecv], "n")
 			}
 		}
+	}
+	// route what the real workers take from their input channels (FIFO: chasers and syns arrive in the order sent)
+	for i, e := range ev {
+		if e.Kind != "bp.recv" || e.P != P {
+			continue
+		}
+		T, w := e.B, -1
+		switch kindOfFlags(e.A % 8) {
+		case "d":
+			if x, ok := dataTo[sysKey{e.ID, e.A / 8}]; ok {
+				w = x
+			}
+		case "f":
+			if q := finQ[T]; len(q) > 0 {
+				w, finQ[T] = q[0], q[1:]
+			}
+		case "s":
+			if q := synQ[T]; len(q) > 0 {
+				w, synQ[T] = q[0], q[1:]
+			}
+		}
+		pl.route[i] = w
 	}
 	return pl, ""
 }
@@ -202,7 +236,11 @@ func SysLinesX(res *Result, part int32) (ops []string, workers int, early int, n
 	waitTok := map[int]int{}
 	var pends []*sysPend
 	pendAt := map[int]*sysPend{} // index of a bp.handover event -> its set
-	undetermined := ""
+	respAt := map[int]*sysPend{} // index of a bp.resp.end event -> the set it answers
+	undetermined, spurs := "", 0
+	active, owner, finDone := map[int]int{}, map[int]int{}, map[int]bool{}
+	_, why := SysScope(res)
+	multi := why == "several-partitions" // with one partition an empty set is the worker's own `stale` defect: the model has it
 	ldr := 0
 	issue := func(p *sysPend) {
 		if p.done {
@@ -275,19 +313,33 @@ func SysLinesX(res *Result, part int32) (ops []string, workers int, early int, n
 				continue
 			}
 			T := e.A
-			w, ok := pl.tagW[T]
-			if !ok {
+			if !pl.tags[T] {
 				continue
 			}
+			w := -1
 			// the set: the k-th bp.sent group of this worker belongs to its k-th handover (the bridge goroutine may
 			// report the set before or after the run loop reports the handover)
 			var ids []int
-			pd := &sysPend{w: w, tag: T, idx: i, sentIdx: -1, reqNo: 1 << 30, broker: T / 4096, verdict: "conn"}
+			pd := &sysPend{w: w, tag: T, idx: i, sentIdx: -1, respIdx: -1, reqNo: 1 << 30, broker: T / 4096, verdict: "conn"}
 			if k := handovers[T]; k < len(sentGroups[T]) {
 				ids = sentGroups[T][k]
 				pd.sentIdx = sentEnd[T][k]
 			}
 			handovers[T]++
+			// the stay of the partition that the messages of the set belong to
+			for _, id := range ids {
+				o := -1
+				for j := i - 1; j >= 0; j-- {
+					if ev[j].Kind == "bp.recv" && ev[j].P == P && ev[j].B == T && ev[j].ID == id && kindOfFlags(ev[j].A%8) == "d" {
+						o = pl.route[j]
+						break
+					}
+				}
+				if o < 0 || (pd.w >= 0 && pd.w != o) {
+					return nil, 0, 0, "set-mixes-stays"
+				}
+				pd.w = o
+			}
 			inSet := map[int]bool{}
 			for _, x := range ids {
 				inSet[x] = true
@@ -296,6 +348,7 @@ func SysLinesX(res *Result, part int32) (ops []string, workers int, early int, n
 			// the verdict: what the worker does after the answer has arrived
 			for j := i + 1; j < len(ev); j++ {
 				if ev[j].Kind == "bp.resp.end" && ev[j].A == T {
+					pd.respIdx = j
 					pd.verdict = ""
 					succ := false
 					for x := j + 1; x < nextInput(T, j); x++ {
@@ -327,8 +380,21 @@ func SysLinesX(res *Result, part int32) (ops []string, workers int, early int, n
 					pd.verdict = "retr"
 				}
 			}
+			// a set without a message of this partition whose answer is not a connection error does nothing to the
+			// partition (a held message of the partition that is added or kept by the re-check is dealt with where it
+			// arrives): the partition's view of the worker does not contain it.  Never answered: the same.
+			closedBefore := false
+			for j := 0; j < i; j++ {
+				if ev[j].Kind == "bp.closing" && ev[j].A == T {
+					closedBefore = true // a closing worker that is closed again: nothing changes
+				}
+			}
+			pd.hidden = len(ids) == 0 && (pd.verdict != "conn" || pd.respIdx < 0 || closedBefore)
 			pends = append(pends, pd)
 			pendAt[i] = pd
+			if pd.respIdx >= 0 {
+				respAt[pd.respIdx] = pd
+			}
 		}
 		if r := sysMatchBatches(res, part, pends); r != "" {
 			return nil, 0, 0, r
@@ -377,16 +443,29 @@ func SysLinesX(res *Result, part int32) (ops []string, workers int, early int, n
 						ops = append(ops, deferred[w][0])
 						deferred[w] = deferred[w][1:]
 						synTaken[w]++
+						active[pl.tagOf[w]] = w
 					}
 				}
 			}
 		case "bp.recv":
-			w, ok := pl.tagW[e.B]
-			if e.P != P || !ok {
+			if e.P != P {
+				continue
+			}
+			w, ok := pl.route[i]
+			if !ok || w < 0 {
 				continue
 			}
 			T := e.B
 			k := kindOfFlags(e.A % 8)
+			if k != "s" || (synTaken[w] < synPushed[w] && len(deferred[w]) == 0) {
+				active[T] = w // (a syn taken before the model's lazy lookup is not yet a step of the model)
+			}
+			if k == "d" {
+				owner[e.ID] = w
+			}
+			if k == "f" {
+				finDone[w] = true
+			}
 			if k == "s" {
 				line := fmt.Sprintf("sys bpRecv %d 0 0 s 0", w)
 				if synTaken[w] < synPushed[w] && len(deferred[w]) == 0 {
@@ -397,10 +476,33 @@ func SysLinesX(res *Result, part int32) (ops []string, workers int, early int, n
 				}
 				continue
 			}
-			ov, nx := 0, nextInput(T, i)
-			if k == "d" && nx < len(ev) {
-				ov = 1
-				for j := i + 1; j < nx; j++ {
+			// overflow: the message is not added (or bounced) before the worker's next VISIBLE input.  Inputs that
+			// the partition does not see (the answer of a hidden set, the hand-over of a hidden set - which moves
+			// the held message into the buffer -, the per-message events of an answer) are looked through: a message
+			// that is added behind them is, for the partition, added on arrival.
+			ov := 0
+			if k == "d" {
+				vis := len(ev)
+				for j := i + 1; j < len(ev); j++ {
+					if !isInput(ev[j], T) {
+						continue
+					}
+					if ev[j].Kind == "bp.resp" {
+						continue
+					}
+					if ev[j].Kind == "bp.handover" && pendAt[j] != nil && pendAt[j].hidden {
+						continue
+					}
+					if ev[j].Kind == "bp.resp.end" && respAt[j] != nil && respAt[j].hidden {
+						continue
+					}
+					vis = j
+					break
+				}
+				if vis < len(ev) {
+					ov = 1
+				}
+				for j := i + 1; j < vis; j++ {
 					if (ev[j].Kind == "bp.add" || ev[j].Kind == "bp.bounce") && ev[j].ID == e.ID && ev[j].B == T {
 						ov = 0
 					}
@@ -426,46 +528,85 @@ func SysLinesX(res *Result, part int32) (ops []string, workers int, early int, n
 				continue
 			}
 			curPend[e.A] = pd
-			if a, ok := pl.activeAt[e.A]; !ok || a > i {
-				// a set of a shared worker handed over before this partition first selected the worker: it holds
-				// nothing of this partition and the partition's model of the worker does not exist yet
-				pd.skipped = true
+			if pd.hidden {
+				if _, held := waitTok[e.A]; !held {
+					continue
+				}
+				// the hand-over moves the partition's held message into the buffer: the partition sees it (an empty
+				// set goes to the bridge; the model allows it because a message is held)
+				pd.hidden = false
+			}
+			if _, held := waitTok[e.A]; multi && len(pd.ids) == 0 && !held && !pd.handed {
+				// a request that carries nothing of this partition and will fail with a connection error: the
+				// partition sees nothing until the error closes the worker (`connEmpty` at the answer)
+				pd.lazy = true
 				continue
 			}
-			if !pd.handed {
-				if len(pd.ids) == 0 {
-					emit("spur %d", pd.w) // a set without a message of this partition
+			if pd.w < 0 {
+				if wt, held := waitTok[e.A]; held {
+					pd.w = owner[wt]
+				} else if a, ok := active[e.A]; ok {
+					pd.w = a // nothing of the partition in the set: the stay the worker is serving
+				} else {
+					pd.hidden = true
+					continue
 				}
+			}
+			if !pd.handed {
 				emit("handover %d", pd.w)
 				pd.handed = true
 			}
 		case "bp.resp.end":
 			T := e.A
-			w, ok := pl.tagW[T]
-			if !ok {
-				continue
-			}
 			pd := curPend[T]
 			delete(curPend, T)
-			if pd == nil {
+			if pd == nil || pd.hidden {
 				continue
 			}
-			if pd.skipped {
-				if a, ok := pl.activeAt[T]; !ok || a > i {
-					continue
+			if pd.verdict == "conn" {
+				// the real worker closes: every stay of the partition at it is affected, the model closes one worker
+				live, unsynced := 0, false
+				for x, tg := range pl.tagOf {
+					if tg == T && synPushed[x] > 0 {
+						if !finDone[x] {
+							live++
+						}
+						if synTaken[x] < synPushed[x] {
+							unsynced = true
+						}
+					}
+					if tg == T && synPushed[x] == 0 && pl.selAt[x] >= 0 && pl.selAt[x] < i {
+						unsynced = true // the partition producer has selected the worker, the model's lazy lookup is still to come
+					}
+					if tg == T && len(deferred[x]) > 0 {
+						unsynced = true // the real worker has the partition's syn, the model's lookup is still to come
+					}
 				}
-				// the partition selected the worker while that set was in flight
-				if _, has := waitTok[T]; has {
-					return nil, 0, 0, "projection-late-activation"
+				if live > 1 {
+					return nil, 0, 0, "projection-close-while-draining"
 				}
-				if pd.verdict != "conn" {
-					continue // the answer touches nothing of this partition
+				if unsynced {
+					return nil, 0, 0, "projection-close-before-sync"
 				}
-				// a connection error: the worker closes and bounces what it holds of this partition - in the
-				// one-partition model: it hands over what it has, the request fails, the answer is delivered
-				emit("spur %d", pd.w)
-				emit("handover %d", pd.w)
-				pd.handed = true
+			}
+			if pd.lazy && !pd.handed {
+				w, ok := active[T]
+				if !ok {
+					// the worker is closed before the partition's model has it (a prefetched worker): no step for that
+					return nil, 0, 0, "projection-close-before-sync"
+				}
+				still := 0
+				if wt, has := waitTok[T]; has {
+					still = 1
+					for j := i + 1; j < nextInput(T, i); j++ {
+						if ev[j].Kind == "bp.add" && ev[j].ID == wt && ev[j].B == T {
+							still = 0
+						}
+					}
+				}
+				pd.handed, pd.done = true, true
+				emit("connEmpty %d %d", w, still)
+				continue
 			}
 			if pd.reqNo < 1<<30 {
 				flushUpTo(pd.reqNo, i)
@@ -480,7 +621,7 @@ func SysLinesX(res *Result, part int32) (ops []string, workers int, early int, n
 					}
 				}
 			}
-			emit("deliver %d %d", w, still)
+			emit("deliver %d %d", pd.w, still)
 		}
 	}
 	flushUpTo(1<<30-1, len(ev))
@@ -508,6 +649,9 @@ func SysLinesX(res *Result, part int32) (ops []string, workers int, early int, n
 		return strings.Join(l, ",")
 	}
 	emit("end %s %s %s", j(logIDs), j(succ), j(errs))
+	if spurs > 0 {
+		ops = append(ops, fmt.Sprintf("#spurs %d", spurs))
+	}
 	return ops, pl.workers, early, ""
 }
 
